@@ -45,7 +45,7 @@ CLAIMS = {
             "accumulate every entry and seal writes that digest, GC adds each dropped entry to the discard it reports, the "
             "verifier's gates exist, fail closed and dominate its verdict, every edit refreshes the state the final gate checks, and "
             "the verifier reads every file a transaction adds and recomputes its setsum (the necessary condition of rejecting an "
-            "altered output).  The GC replay accepts only once the replayed collector is exhausted (a retained key in no output is a loss wherever it sorts).  Every compaction output that is summed into 'O' is named by the edit (C05.3).  Does not decide that the numbers are right for every history or that every tamper is rejected.", "§4 C04"),
+            "altered output).  The GC replay accepts only once the replayed collector is exhausted (a retained key in no output is a loss wherever it sorts).  Every compaction output that is summed into 'O' is named by the edit (C05.3).  The 'I' of the edit a replayed log writes derives from the manifest's 'O' read in recover_one itself, not from a value handed in (C04.2).  Does not decide that the numbers are right for every history or that every tamper is rejected.", "§4 C04"),
     "C05": ("who-may-call + GUARDED (GC only under top_level), loop-body MUSTPASS (every entry read is written; every input/output wired; every policy child consulted), per-key state reset analysis, accumulator shape of the policy combinators, ORIGIN",
             "Decides rewrite completeness and GC confinement: GC is reachable only on the top_level edge and only with the "
             "configured policy; a plain compaction writes every entry it reads and leaves its loop only at end of input; "
@@ -59,7 +59,7 @@ CLAIMS = {
             "position, sequence number, memtable and log; Ok only after append < insert < head-of-list wait < unlink < notify; "
             "readers capture (mem, imm, version, timestamp) in one critical section; rollover swaps and drains in one critical "
             "section, creates the new log before its first state write (a failed rollover leaves the store as it was) and clears imm after ingest; a failed write leaves the wait list and notifies under the store mutex; the readers' timestamp field is advanced only after the batch is inserted and "
-            "at the head of the list.  Every memtable point-read entry the store uses is handed the snapshot timestamp.  Within a batch the last write of a key is the one that becomes visible (C02.8).  Does not decide linearizability over all interleavings.", "§4 C06"),
+            "at the head of the list.  Every memtable point-read entry the store uses is handed the snapshot timestamp.  Within a batch the last write of a key is the one that becomes visible (C02.8).  At open the readers' snapshot is built from the same value as the allocation counter, with no subtraction (C06.5).  Does not decide linearizability over all interleavings.", "§4 C06"),
     "C18": ("ORDER/MUSTPASS/loop-body MUSTPASS/HELD/WRITES over do_work, WaitList and the LRU; wait-kind classification (filtering vs. plain condvar waits) with HELD at predicate writers; lock-order graph of sync42",
             "Decides hand-off and accounting pairing: every do_work exit unlinks then notifies, returns its own waiter's Output, "
             "the leader publishes every taken waiter's output before leaving and clears doing_work; wait-list head/tail change "
@@ -72,7 +72,7 @@ CLAIMS = {
             "waits re-check their predicate inside one critical section, notifications cannot race a predicate check, the set of "
             "(lock held, condvar waited) pairs equals a triaged table, every awaited state change is announced, failed compactions "
             "release their claim, a compaction chosen as mandatory is emitted on every path under no score comparison (only the optional "
-            "candidate is score-gated).  The ingest stall predicate compares only quantities the mandatory-compaction predicate also compares and reads nothing but the version; option limits that end the compaction search exempt level 0 (the file-count limits do not: known finding F17).  A chosen compaction ends applied or in an error: no success return leaves its claim behind.  Does not decide that a relieving compaction is always found by the search, nor fairness.", "§4 C20"),
+            "candidate is score-gated).  The ingest stall predicate compares only quantities the mandatory-compaction predicate also compares and reads nothing but the version; option limits that end the compaction search exempt level 0 (the file-count limits do not: known finding F17).  A chosen compaction ends applied or in an error: no success return leaves its claim behind.  Between linking into the wait list and the hand-over a writer (and the helpers it calls there) waits on no condition variable (C20.2).  Does not decide that a relieving compaction is always found by the search, nor fairness.", "§4 C20"),
     "C01": ("ORDER/GUARDED/ORIGIN over KeyValueStore::load, Version::load, open/recover; re-evaluates the sibling rules a point read depends on (C06.1/3/4/5, C02.4/5, C10.2, C05.1/5, C13.5, C08.4/6); worklist-relaxation MUSTPASS in recover",
             "Decides the lookup-precedence and freshness skeleton: mem before imm before tree with early exit on hit or tombstone; "
             "L0 newest-first before deeper levels; batches stamped with the fresh sequence number before use; publish after "
@@ -88,14 +88,14 @@ CLAIMS = {
             "Decides pipeline composition: every scan is Bounds(Pruning(Merging(components))) with the captured timestamp and "
             "the caller's bounds, no component (mem, imm, any L0 file, any overlapping deeper file) can be left out -- files are skipped only by the "
             "overlap test, never by an iterator adaptor or a sub-slice --, the snapshot "
-            "is captured atomically, exhaustion is tested through key(); the files of one level are key-ordered after recovery only if mutually unordered files are not flattened into it (C01.9, known finding F32).  The per-level concatenation re-seeks every file it enters (C11.7).  The wrapper cursors of the scan pipeline forward each step one-to-one (C11.2).  Does not decide ordering/exactly-once/seek landing.", "§4 C03"),
+            "is captured atomically, exhaustion is tested through key(); the files of one level are key-ordered after recovery only if mutually unordered files are not flattened into it (C01.9, known finding F32).  The per-level concatenation re-seeks every file it enters (C11.7).  The wrapper cursors of the scan pipeline forward each step one-to-one (C11.2).  The merge comparator's forward and backward arms are mirror images (C11.9).  Does not decide ordering/exactly-once/seek landing.", "§4 C03"),
     "C11": ("SIBLINGS forwarding tables and mirror-image rules (bounds next/prev, concat seek/next/prev, pruning seek/next), GUARDED key-before-value tests, ORDER on the merging cursor's direction switch",
             "Decides sibling consistency of the combinators: value() presence tests are tombstone tests (key known Some), wrappers "
             "forward m to m and never cross key/value, a direction switch advances every child before flipping the comparator "
             "and rebuilding the heap and moves children by single steps only (no re-seek), every seek positions every child, pruning filters by timestamp <= snapshot, recognises "
             "tombstones and accepts an entry only after screening it against skip_key (seek and next alike); the bounds cursor "
             "re-checks both bounds after every step in both directions; the concatenating cursor leaves an exhausted child.  "
-            "The pruning cursor records every entry it returns (prev as next and seek); the concatenating cursor's binary search never classifies an empty child.  A child that becomes current in the concatenating cursor is positioned by a seek of its own before it is stepped or read.  A lazy cursor stores its resting position only after its last fallible step; wrapper cursors step once per step.  Does not decide the combinator equivalences for all inputs.", "§4 C11"),
+            "The pruning cursor records every entry it returns (prev as next and seek); the concatenating cursor's binary search never classifies an empty child.  A child that becomes current in the concatenating cursor is positioned by a seek of its own before it is stepped or read.  A lazy cursor stores its resting position only after its last fallible step; wrapper cursors step once per step.  The two positioned arms of the merge comparator compare the same whole keys in mirror-image directions (C11.9).  Does not decide the combinator equivalences for all inputs.", "§4 C11"),
     "C07": ("who-frees analysis over Drop impls (GUARDED uniqueness test or pointee ownership), ESCAPE of the VersionRef, ORIGIN pipeline chains, ADT field-type facts; re-evaluates C06.3/5 (snapshot capture and visibility watermark)",
             "Decides the ownership/escape structure a memory-safe snapshot needs: shared memory is freed only by the Arc's pointee or "
             "behind a uniqueness test, iterators hold a clone of the list's Arc, the returned scan cursor owns the VersionRef that "
@@ -120,7 +120,7 @@ CLAIMS = {
             "explicit panic or dropped error is reachable from a decoder, and every index / slice expression on the decode path "
             "is in range by a dominating comparison with the length of the same buffer (7 excepted sites with reasons); every hand-written "
             "Packable impl sizes through pack_sz each concrete component it writes through pack (a Tag::pack_sz that sizes the tag itself is "
-            "tabulated over all valid field numbers against the varint length).  Leaf field packers always write their field (presence is decided only by Option / Vec / Box), every scalar field type announces the wire type of what it writes, and every field loop of a derived decoder can pass over an unknown field.  A varint decoder's growing shift sits in a loop bounded by a constant of at most ten steps.  The derived nested-message packers write tag and length on every path.  Does "
+            "tabulated over all valid field numbers against the varint length).  Leaf field packers always write their field (presence is decided only by Option / Vec / Box), every scalar field type announces the wire type of what it writes, and every field loop of a derived decoder can pass over an unknown field.  Packable::stream passes through write_all on every success path and no single-shot Write::write is used outside a loop in the codec crates (C15.9).  A varint decoder's growing shift sits in a loop bounded by a constant of at most ten steps.  The derived nested-message packers write tag and length on every path.  Does "
             "not decide round-trip equality or integer-overflow panics.", "§4 C15, §9.1"),
     "C16": ("TABLE reading of to/from_discriminant (inverse bijection < 16), const evaluation of tuple_key2 tag ranges, exhaustive evaluation over u8 of the descending byte map read from MIR, exact piecewise-translation tabulation of the sign-offset mapping (order isomorphism, decode inverts encode), explicit-panic audit + implicit-bounds audit with an inductive offset <= len type invariant over REACH(decoders)",
             "Claims only: the decoders of both formats reach no explicit panic construct and index their buffers in range (parser "
